@@ -6,6 +6,7 @@ wt=/tmp/mut/wt_$id; out=/tmp/mut/out/$id; res=/tmp/mut/results; mkdir -p $res
 log=$res/${id}_$x.log; : > $log
 cd $wt || exit 2
 git checkout -q -- . ; git clean -fdq pydbml
+git checkout -q --detach $(git -C /repo rev-parse HEAD)   # seeded changes are applied on top of the current /repo HEAD
 if ! git apply $out/patch_$x.diff 2>>$log; then echo "$id $x APPLY_FAILED" | tee -a $log; exit 2; fi
 t=$(/venv/bin/python -m pytest -q -p no:cacheprovider 2>&1 | tail -1); echo "tests_with_change: $t" >> $log
 PYTHONPATH=$wt /venv/bin/python $out/demo_$x.py >> $log 2>&1; d1=$?; echo "demo_with_change_exit: $d1" >> $log
